@@ -579,6 +579,48 @@ Proof.
 Qed.
 End ChunkAt.
 
+(* ================================================================== ref allocation (chunkPos) *)
+(* the allocated chunks, in order: each starts at or after the end of everything allocated before
+   (same file, higher offset, or a later file), after the 8-byte header, and ends at or before
+   MaxHeadChunkFileSize; a cut is decided exactly when the ref is the start of the next file *)
+Fixpoint chain (q o : N) (l : list (bool * ref * N)) : Prop :=
+  match l with
+  | [] => True
+  | (cut, rf, b) :: t =>
+      (if cut then rf = (q + 1, 8) else rf = (q, o)) /\
+      8 <= snd rf /\ snd rf + b <= max_file_size /\
+      chain (fst rf) (snd rf + b) t
+  end.
+
+Lemma alloc_run_chain : forall steps seq off cutf,
+  (off = 0 \/ 8 <= off) -> (forall st, In st steps -> 8 + snd st <= max_file_size) ->
+  chain seq off (fst (alloc_run seq off cutf steps)).
+Proof.
+  induction steps as [|[creq btw] t IH]; intros seq off cutf Hoff Hfit; [exact I|].
+  cbn [alloc_run]. unfold alloc.
+  pose proof (Hfit (creq, btw) (or_introl eq_refl)) as Hb. cbn [snd] in Hb.
+  destruct (cutf || creq || (off =? 0) || (max_file_size <? off + btw)) eqn:Ecut.
+  - destruct (alloc_run (seq + 1) (8 + btw) false t) as [l e] eqn:Er. cbn [fst chain snd].
+    split; [reflexivity|]. split; [lia|]. split; [exact Hb|].
+    specialize (IH (seq + 1) (8 + btw) false ltac:(right; lia) ltac:(intros st Hin; apply Hfit; right; exact Hin)).
+    rewrite Er in IH. exact IH.
+  - apply orb_false_iff in Ecut. destruct Ecut as [Ecut E3]. apply orb_false_iff in Ecut. destruct Ecut as [_ E2].
+    apply N.eqb_neq in E2. apply N.ltb_ge in E3.
+    destruct (alloc_run seq (off + btw) (cutf || creq) t) as [l e] eqn:Er. cbn [fst chain snd].
+    split; [reflexivity|]. split; [lia|]. split; [exact E3|].
+    specialize (IH seq (off + btw) (cutf || creq) ltac:(right; lia) ltac:(intros st Hin; apply Hfit; right; exact Hin)).
+    rewrite Er in IH. exact IH.
+Qed.
+
+(* WriteChunk allocates with exactly this function *)
+Lemma do_write_alloc qmax s r : (qmax <=? length (queue s))%nat = false ->
+  let '(cut, rf, (q, o, c)) := alloc (ev_seq s) (ev_off s) (ev_cut s) (rec_size r) in
+  snd (do_write qmax s r) = ORef rf /\
+  ev_seq (fst (do_write qmax s r)) = q /\ ev_off (fst (do_write qmax s r)) = o /\ ev_cut (fst (do_write qmax s r)) = c.
+Proof.
+  intros Hq. unfold do_write, alloc. rewrite Hq. cbn [fst snd ev_seq ev_off ev_cut]. auto.
+Qed.
+
 (* ================================================================== the write queue state machine *)
 (* ---- generic list facts *)
 Lemma ref_eqb_eq a b : ref_eqb a b = true <-> a = b.
